@@ -39,6 +39,9 @@ CHECKS = {
     'C03': dict(category='exploration', technique='exhaustive enumeration of grammars (rule shapes x factor sharing x zero deviations, a multi-nonterminal family, ten recursive templates x weightings) x {Real,Log} x methods x all one-hot cotangents against exact forward-mode derivatives of the definition',
                 text='For every grammar of the bounded families, every weight requiring grad and every one-hot / all-ones cotangent on the start tensor, the gradient produced by back-propagating through the real sum_product is compared entry by entry with the exact derivative of the definition (rational forward-mode on the IR; 40-digit Kleene iteration with dual numbers for recursive grammars; w dZ/dw / Z in the Log semiring), including shared factors, unreachable factors, dead rules, duplicated external nodes and a diagonal-patterned factor.',
                 note='Default Jacobian path only (j_precompute is compared relationally in C11). Known finding K03 (fixed-point stops at an all-zero iterate). Bounds and excluded counts in evidence.', design='3/C03'),
+    'C06': dict(category='model_checking', technique='exhaustive enumeration of a type-directed pattern catalogue x defaults x storage layouts through every operation and every same-typed operand pair, plus explicit-state BFS of the <patterned, dense> product machine over operation compositions; representation invariant asserted on every construction',
+                text='Every patterned tensor of the catalogue (100 index-type tuples, 606 patterns incl. shared axes and sum/product nestings) under six defaults and three storage layouts is pushed through every unary, scalar, structural, indexing, reshape/view and iteration operation, every ordered same-typed pair through every binary/ternary operation, and compositions of operations are explored as a product machine whose second component is the dense tensor; each result must denote exactly the tensor torch computes on to_dense() (NaN-aware, bit-exact; 8 ulp for div), sources must stay untouched, reshape must succeed on merges, and every PatternedTensor constructed inside the library must satisfy the representation invariant.',
+                note='torch is the trusted base for dense semantics. The IEEE-special default slice (operations whose default is computed with Python math) is excluded per operation and counted in evidence.excluded_not_judged.', design='3/C06'),
 }
 
 ALL = ['C%02d' % i for i in range(1, 21)]
